@@ -75,3 +75,7 @@ def pattern(fn, shape):
 
 
 CONTRACTS += [pattern("doji", DOJI), pattern("dojistar", DOJISTAR), pattern("hammer", HAMMER), pattern("inverted_hammer", INVHAMMER)]
+
+for _c in CONTRACTS:
+    if "C16" in _c.props:
+        _c.props += [p for p in ("C01", "C02") if p not in _c.props]
